@@ -200,6 +200,9 @@ def render_input(rng, g, toks, ws="none"):
         pool = ["", " ", "\n", " // note\n", "//x\n ", "  "]
         if g.layout == "nested":
             pool += ["/* c */", " /* a /* b */ c */ ", "/**/"]
+            if rng.random() < 0.15:
+                # an unterminated block comment: not layout, the input is then no sentence whatever follows
+                pool += ["/* c ", "/*", " /* a /* b */ "]
     else:
         pool = ["", " ", "  ", "\n", "\t", " \n ", "\r\n", "\u00a0", "\u2003 "]
         if g.layout is not None:
